@@ -299,6 +299,25 @@ func (s *Segment) Get(st, et time.Time, cb func(depth int, samples, writes uint6
 	v.print(filepath.Join(os.TempDir(), fmt.Sprintf("0-get-%s-%s.html", st.String(), et.String())))
 }
 
+// GetWithTimeline fills the timeline and reports the buckets covering st..et
+// under one read lock, so that both describe the same state of the segment
+// (calling PopulateTimeline and Get one after the other lets a Put slip in
+// between them).
+func (s *Segment) GetWithTimeline(tl *Timeline, st, et time.Time, cb func(depth int, samples, writes uint64, t time.Time, r *big.Rat)) {
+	s.m.RLock()
+	defer s.m.RUnlock()
+
+	if s.root == nil {
+		return
+	}
+	s.root.populateTimeline(tl.st, tl.et, tl.durationDelta, tl.Samples)
+
+	st, et = normalize(st, et)
+	s.root.get(st, et, func(sn *streeNode, depth int, t time.Time, r *big.Rat) {
+		cb(depth, sn.samples, sn.writes, t, r)
+	})
+}
+
 func (s *Segment) DeleteDataBefore(retentionThreshold time.Time, cb func(depth int, t time.Time)) bool {
 	s.m.Lock()
 	defer s.m.Unlock()
